@@ -158,6 +158,43 @@ theorem C12_hard_timeout_honoured (s : State) (p : Nat) (e : Err) (w : Worker) (
     simp only [step, hq, hoff, Bool.false_eq_true, ↓reduceIte]
   rw [hs]; exact result_ends_overdue_batch s p e w job bp hw ha hf hh
 
+/-- **A connecting peer always gets a worker** — whenever the dispatcher takes a
+peer from `peersConnected` (it is not shut down and not blocked offering a job),
+a live, idle worker is registered under the peer's address afterwards, whatever
+was registered under that address before: nothing, a worker whose `Run` has
+returned but which was not pruned yet (pruning is lazy), or even a running one.
+So a persistent peer that drops and reconnects under the same address is
+available for the next hand-out. -/
+theorem C12_connect_registers (s : State) (p : Nat) (hq : s.quit = false) (hoff : offering s = false) :
+    let s' := (step s (.peer p)).1
+    findW s'.workers p = some ⟨p, none, false⟩ ∧
+    (freeLive s').any (fun w => w.addr == p) = true ∧
+    (∀ q, q ≠ p → findW s'.workers q = findW s.workers q) := by
+  intro s'
+  have hs : s' = (stepPeer s p).1 := by
+    show (step s (.peer p)).1 = _
+    simp only [step, hq, hoff, Bool.false_eq_true, ↓reduceIte]
+  rw [hs]
+  refine ⟨?_, ?_, ?_⟩
+  · simp only [stepPeer, findW, setW, List.find?_cons, beq_self_eq_true]
+  · simp only [stepPeer, freeLive, setW, List.filter_cons, Option.isNone_none, Bool.not_false, Bool.and_self,
+      ↓reduceIte, List.any_cons, beq_self_eq_true, Bool.true_or]
+  · intro q hne
+    have hb : (p == q) = false := by simp only [beq_eq_false_iff_ne, ne_eq]; exact fun e => hne e.symm
+    simp only [stepPeer, findW, setW, List.find?_cons, hb]
+    induction s.workers with
+    | nil => rfl
+    | cons x xs ih =>
+      simp only [List.filter_cons]
+      by_cases hx : x.addr = p
+      · have h1 : (x.addr != p) = false := by simp only [hx, bne_self_eq_false]
+        have h2 : (x.addr == q) = false := by
+          simp only [beq_eq_false_iff_ne, ne_eq, hx]; exact fun e => hne e.symm
+        simp only [h1, Bool.false_eq_true, ↓reduceIte, List.find?_cons, h2, ih]
+      · have h1 : (x.addr != p) = true := by simp only [bne_iff_ne, ne_eq]; exact hx
+        simp only [h1, ↓reduceIte, List.find?_cons]
+        cases (x.addr == q) <;> simp only [ih]
+
 /-- **Re-issue** — when a worker reports a failure other than cancellation
 (timeout, disconnect, any other error) for the job it holds, then, unless the
 job's batch ended in this very step (retry cap reached, hard deadline passed) or
@@ -262,6 +299,12 @@ example :
 example :
     (run init [.peer 1, .newBatch 1 true 0 false false, .accept 1, .result 1 .other, .accept 1,
       .elapse 0, .result 1 .disconnected]).verdicts = [(0, .res .timeout)] := by decide
+/-- `C12_connect_registers`: peer 1 goes away while idle (its stale entry is still in the map), reconnects under
+the same address, and the next batch's only request is handed to it -/
+example :
+    let s := run init [.peer 1, .exit 1]
+    findW s.workers 1 = some ⟨1, none, true⟩ ∧ s.quit = false ∧ offering s = false ∧
+    outs s [.peer 1, .newBatch 1 false 2 false false, .accept 1] = [.dispatched 1 0 0 2] := by decide
 /-- `C12_rank`: with two free workers of different score only the better one may accept -/
 example :
     let s := run init [.peer 1, .peer 2, .newBatch 1 false 2 false false, .accept 1, .result 1 .other]
